@@ -108,7 +108,14 @@ fn compare_banks(
         if pre.get(bk).map(|p| p.data == x.data).unwrap_or(false) {
             continue;
         }
-        if x.data != y.data {
+        // the informational rate/price cache is not part of the claim (an instruction that
+        // accrues and then returns early leaves it un-refreshed); everything else must match
+        let strip = |d: &[u8]| -> Option<Vec<u8>> {
+            let mut b = model::load_bank(d)?;
+            b.cache = bytemuck::Zeroable::zeroed();
+            Some(bytemuck::bytes_of(&b).to_vec())
+        };
+        if strip(&x.data) != strip(&y.data) {
             let (bx, by) = (model::load_bank(&x.data), model::load_bank(&y.data));
             let d = match (bx, by) {
                 (Some(bx), Some(by)) => format!(
